@@ -499,9 +499,23 @@ func (w *World) RunBlock(h int64, step *BlockStep) {
 		return
 	}
 	// oracles over the committed state
+	nviol := len(w.Viol)
 	w.checkCommitted(h, res, block, preState)
+	if w.M.GenesisInFlight >= 2 {
+		// listed finding: all genesis stakes share one unbonding-record key (see known_findings.json)
+		for _, v := range w.Viol[nviol:] {
+			if v.Shape == "" && (strings.HasPrefix(v.Check, "diff.") || v.Check == "conservation" || v.Check == "valset" || strings.HasPrefix(v.Check, "stake.")) {
+				v.Shape = "two-genesis-stakes-unbonding"
+			}
+		}
+	}
 	w.compareReplicas(h)
 
+	if len(w.Viol) > 0 {
+		// a world that has hit a violation has diverged from the model: nothing after it is meaningful
+		w.Fatal = true
+		return
+	}
 	// faults at the block boundary
 	w.cur = nil
 	w.boundaryFaults(h, step)
@@ -553,6 +567,11 @@ func (w *World) reportApplyError(r *Replica, err error, h int64) {
 		}
 		v := w.violate("apply.panic", props, h, "replica %s: %s @ %s", r.Name, pe.Val, pe.Stack)
 		v.Shape = panicShape(pe)
+	} else if strings.Contains(err.Error(), "would result in empty set") {
+		// the workload removed the last validator: an empty set is outside the statement (DESIGN 6/C10);
+		// the world simply ends here
+		w.Probes.Hit("valset.empty-attempt")
+		w.logf("END empty validator set at h=%d", h)
 	} else if strings.Contains(err.Error(), "validator updates") || strings.Contains(err.Error(), "commit failed for application") {
 		w.violate("apply.valupdates", []string{"C10"}, h, "replica %s: engine rejected validator updates: %v", r.Name, err)
 	} else if isLeader {
